@@ -7,6 +7,7 @@ import (
 	"fmt"
 	"math"
 	"strings"
+	"sync"
 
 	"github.com/bmeg/grip/kvi"
 	"github.com/bmeg/grip/log"
@@ -38,6 +39,9 @@ func containsPrefix(c string, s []string) bool {
 type KVIndex struct {
 	KV     kvi.KVInterface
 	Fields map[string][]string
+	// fieldLock guards Fields: fields are added and removed (graph creation and
+	// deletion) while documents are being indexed by other requests
+	fieldLock sync.RWMutex
 }
 
 // KVTermCount Get all terms and their counts
@@ -61,7 +65,9 @@ func NewIndex(kv kvi.KVInterface) *KVIndex {
 // AddField add new field to be indexed
 func (idx *KVIndex) AddField(path string) error {
 	fk := FieldKey(path)
+	idx.fieldLock.Lock()
 	idx.Fields[path] = strings.Split(path, ".")
+	idx.fieldLock.Unlock()
 	return idx.KV.Set(fk, []byte{})
 }
 
@@ -72,7 +78,9 @@ func (idx *KVIndex) RemoveField(path string) error {
 	ed := EntryPrefix(path)
 	idx.KV.DeletePrefix(fkt)
 	idx.KV.DeletePrefix(ed)
+	idx.fieldLock.Lock()
 	delete(idx.Fields, path)
+	idx.fieldLock.Unlock()
 	return idx.KV.Delete(fk)
 }
 
@@ -110,6 +118,7 @@ func (idx *KVIndex) AddDocTx(tx kvi.KVBulkWrite, docID string, doc map[string]in
 	sdoc := Doc{Entries: [][]byte{}}
 	docKey := DocKey(docID)
 
+	idx.fieldLock.RLock()
 	for field, p := range idx.Fields {
 		x := mapDig(doc, p)
 		if x != nil {
@@ -119,6 +128,7 @@ func (idx *KVIndex) AddDocTx(tx kvi.KVBulkWrite, docID string, doc map[string]in
 				entryKey := EntryKey(field, t, term, docID)
 				err := tx.Set(entryKey, []byte{})
 				if err != nil {
+					idx.fieldLock.RUnlock()
 					return fmt.Errorf("failed to set entry key %s: %v", entryKey, err)
 				}
 				sdoc.Entries = append(sdoc.Entries, entryKey)
@@ -133,14 +143,17 @@ func (idx *KVIndex) AddDocTx(tx kvi.KVBulkWrite, docID string, doc map[string]in
 				binary.PutUvarint(buf, count)
 				err = tx.Set(termKey, buf)
 				if err != nil {
+					idx.fieldLock.RUnlock()
 					return fmt.Errorf("failed to set term key %s: %v", termKey, err)
 				}
 
 			default:
+				idx.fieldLock.RUnlock()
 				return fmt.Errorf("unsupported term type")
 			}
 		}
 	}
+	idx.fieldLock.RUnlock()
 
 	data, err := proto.Marshal(&sdoc)
 	if err != nil {
